@@ -86,11 +86,11 @@ func init() {
 		Pkgs:     []string{"rules"},
 		InitPkgs: []string{"filterutil", "rules"},
 		Prepare: func(rc *RunCtx) error {
-			maxTok, maxAtoms, nb := 2, 2, 60
+			maxTok, maxAtoms, nb, sample := 2, 2, 60, 100
 			if rc.Tier == "thorough" {
-				maxTok, maxAtoms, nb = 3, 3, 0
+				maxAtoms, nb, sample = 3, 0, 2000
 			}
-			mask := enumerateMaskRules(maxTok, 100, rc.Seed)
+			mask := enumerateMaskRules(maxTok, sample, rc.Seed)
 			rx := enumerateRegexRules(maxAtoms)
 			bd := bundledRegexRules(nb)
 			all := &nativeRules{}
@@ -134,7 +134,7 @@ func init() {
 		MustReach: []string{"c03b.rule", "c05.rule", "c05.accepts"},
 		Bounds: map[string]string{
 			"quick":    "mask patterns of 1..2 tokens (as C03) + 100 seeded longer ones; regular expressions of 1..2 atoms over 25 atoms (literals, \\d \\w \\s \\b \\. \\/ \\xHH, classes, groups with alternation, | * + {m,n} ? ^ $ .); the first 60 regular-expression rules of the bundled lists; for each rule ALL URLs of 0..12 printable-ASCII bytes and ALL hostnames of 1..8 bytes",
-			"thorough": "mask 1..3 tokens, regular expressions 1..3 atoms, every regular-expression rule of the bundled lists; URLs 0..20 bytes, hostnames 1..12 bytes",
+			"thorough": "mask 1..2 tokens plus 2000 seeded longer ones, regular expressions 1..3 atoms, every regular-expression rule of the bundled lists; URLs 0..20 bytes, hostnames 1..12 bytes",
 		},
 		Outside:     []string{"URLs longer than the bound (a rule whose shortest match is longer is vacuously covered)", "non-ASCII bytes", "look-arounds (rejected by Go's regexp: the rule is invalid and never matches)"},
 		Assumptions: []string{"regexp encoding == (*Regexp).MatchString on ASCII (validated on concrete strings each run)"},
